@@ -25,6 +25,9 @@ const mon = "monitoring2"
 // simAccess classifies a call in the monitor as a simulation-state access.
 func simAccess(call ssa.CallInstruction) string {
 	cc := call.Common()
+	if nm, pk := calleeNamePkg(call); strings.HasSuffix(pk, "goseth") && nm == "Serialize" {
+		return "reflection over the component (goseth Serialize)"
+	}
 	if cc.IsInvoke() {
 		it := cc.Value.Type().String()
 		name := cc.Method.Name()
